@@ -216,6 +216,15 @@ def run(W, cfg):
             W.ob(f'operand {nm}: same values afterwards', s.value, W.array([x * fu for x in v]))
         else:
             W.ob(f'operand {nm}: same values afterwards', s.value, W.array(list(v)))
+    if ua == 'nm' and ub == 'nm' and not vu and not cfg.get('intvalues'):
+        # the operands' values edited through the setter (same grids), then the operation again: the new values are used
+        va2 = [x * 2 + 1 for x in va]
+        vb2 = [x * 3 + (2 if nz else -1) for x in vb]
+        sa.value = W.array(list(va2))
+        sb.value = W.array(list(vb2))
+        res2 = getattr(sa, cfg['op'])(sb, sampling=cfg['sampling'], fill_value=fill)
+        want2 = [OPS[cfg['op']](_interp(W, ga, va2, q, fill), _interp(W, gb, vb2, q, fill)) for q in grid]
+        W.ob('after the values were edited: value = op(interpolated new values, fill outside)', res2.value, W.array(want2))
 
 
 HARNESSES = {'binop': {'configs': configs, 'run': run, 'small': 4}}
